@@ -1153,30 +1153,35 @@ def replay(inp):
 
 
 MANIFEST_ENTRY = {
-    'technique': 'Lean 4 proofs (derivations on commutative rings, Polynomial.derivative, induction through three-term recurrences) '
-                 'over a hand model tied to the source by translator-generated seed/step/index/closed-form definitions, plus Float and '
-                 'exact-rational correspondence runs and an exact formal-derivative predicate on prysm\'s own value routines',
-    'text': ('PROVED for all inputs (Props/C09.lean, standard axioms): (1) clenshaw_der_correct / clenshaw_der_entries - for every three-term '
-             'family over a field, every coefficient list of any length, every derivative order j and every point, row j of the table '
-             'alpha^(j)_n = j a_n alpha^(j-1)_{n+1} + (a_n x + b_n) alpha^(j)_{n+1} - c_{n+1} alpha^(j)_{n+2} consists of the j-th derivatives '
-             'of the polynomials alpha_n(X), and its read-out is the j-th derivative of sum s_n p_n(X) evaluated at the point; instances for '
-             'jacobi_sum_clenshaw_der (alphas[j][0]), clenshaw_qbfs_der (2(alphas[j][0]+alphas[j][1])), clenshaw_q2d_der (0.5 alphas[j][0] - '
-             '[m=1,N>2] 2/5 alphas[j][3]). (2) hermiteHe_der, hermiteH_der, laguerre_der: the closed forms n He_{n-1}, 2n H_{n-1}, '
-             '-L_{n-1}^{(alpha+1)} (0 at n = 0) are the derivatives of the polynomials generated by the value routines\' recurrences, for EVERY '
-             'order (Laguerre: every shape parameter, via the contiguous relation L_n^{(a)} = L_n^{(a+1)} - L_{n-1}^{(a+1)}). (3) '
-             'qbfs_sag_slope, qcon_sag_slope: compute_z_zprime_Qbfs / _Qcon return (sag polynomial, its derivative) at every point for every '
-             'coefficient list. (4) in any commutative ring with a derivation: q2d_radial_slope, q2d_azimuthal_slope (per-m terms of '
-             'compute_z_zprime_Q2d), zernike_radial, zernike_azimuthal (product/chain rule assembly of zernike_nm_der, GIVEN that jacobi_der is '
-             'the derivative of jacobi). TRANSLATED from the current source each run and proved equal to the model: seed expression, seed '
-             'position M-jj, seed factor jj (the theorems quantify over the requested order j, so a j in place of jj cannot pass), step '
-             'expression, read/write indices, loop start M-jj-1, coefficient orders and tuple positions, the jj > M guard, row 0 = value sweep, '
-             'for all three derivative routines; the closed forms and order/shape shifts of hermite_*_der, laguerre_der, jacobi_der; the '
-             'Hermite and Laguerre value recurrences; the pieces of zernike_nm_der; the straight-line assemblies of compute_z_zprime_Qbfs / '
-             '_Qcon (incl. the one-term branch) and the slope terms of compute_z_zprime_Q2d. NOT PROVED: jacobi_der for all n '
-             '(jacobi_der_full is stated as a Prop; legendre_der, cheby*_der, zernike radial derivative and Qcon depend on it) - covered by '
-             'the exact formal-derivative predicate for n <= 30 (bounded, differential testing). MODELLED AND COMPARED: every routine above '
-             'plus the *_der_seq forms (against one-at-a-time evaluation), zernike_nm_der(_seq), compute_z_zprime_Q2d end to end.'),
-    'note': ('partial: jacobi_der (hence Legendre/Chebyshev/Zernike-radial/Qcon value-level derivative identities) is checked, not proved, '
-             'beyond the Clenshaw route; the Python loops are tied to the model by execution; x/raytracing/surfaces.py is not covered; '
-             'rounding is outside every theorem (comparisons at 1e-9 relative).'),
+    'technique': 'Lean 4 proofs (derivations on commutative rings, Polynomial.derivative, induction through three-term recurrences, '
+                 'HasDerivAt over the reals for the square-root surfaces) over a hand model tied to the source by translator-generated '
+                 'seed/step/index/closed-form definitions, plus Float and exact-rational correspondence runs and an exact '
+                 'formal-derivative / automatic-differentiation predicate on prysm\'s own value routines',
+    'text': ('PROVED for all inputs (Props/C09.lean, standard axioms; "derivative" = Polynomial.derivative of the value routine run on the '
+             'indeterminate, evaluated at the point; real HasDerivAt for the surfaces): (1) clenshaw_der_correct / clenshaw_der_entries - '
+             'every three-term family over a field, every coefficient list of any length, every derivative order j, every point: row j of the '
+             'table consists of the j-th derivatives of the polynomials alpha_n(X) and its read-out is the j-th derivative of sum s_n p_n(X); '
+             'instances jacobi_sum_clenshaw_der, clenshaw_qbfs_der, clenshaw_q2d_der (incl. the m = 1 correction); '
+             'table_zero_above_degree + seed_is_recurrence justify the seed at index M-jj. (2) jacobi_der for EVERY order and all '
+             'alpha+beta not in {-2,-3,...} (via the contiguous relation P_n^(a,b) = u_n M_n + v_n M_{n-1} + w_n M_{n-2}, M = P^(a+1,b+1), '
+             'proved by induction from the two recurrences, then the differentiated recurrence); instances legendre_der, the Chebyshev '
+             'parameter pairs, Zernike/Qcon (0,m). (3) hermiteHe_der, hermiteH_der, laguerre_der: every order (Laguerre: every shape). '
+             '(4) zernike_der_radial_correct: the radial output of zernike_nm_der is znorm * d/dr[r^|m| P(2r^2-1)] * trig for every (n,m), '
+             'every point; zernike_azimuthal_real. (5) qbfs_sag_slope, qcon_sag_slope: compute_z_zprime_Qbfs/_Qcon return (sag polynomial, '
+             'its derivative) for every coefficient list (length 1 included). (6) q2d_radial_slope / q2d_azimuthal_slope (any commutative '
+             'ring with a derivation; hypotheses instantiated in Q[X]) and q2d_azimuthal_slope_real (real cos/sin). (7) x/raytracing/'
+             'surfaces.py: conic_sag_der_correct (sphere, conic), dir_cos_der_correct, off_axis_conic_der_correct, '
+             'off_axis_conic_sigma_der_correct (HasDerivAt in r and in t, shift along x or y, wherever the radicands are positive), '
+             'q2d_and_der_correct (product rule through u = rho/R). TRANSLATED from the current source each run and proved equal to the '
+             'model (gen_* theorems): seed expression / position M-jj / factor jj (quantified over the requested order j), step, read-write '
+             'indices, loop-start window, coefficient orders and tuple positions, jj > M guard, row 0 = value sweep for the three derivative '
+             'routines; closed forms and order/shape shifts of hermite_*_der, laguerre_der, jacobi_der; Hermite and Laguerre value '
+             'recurrences; pieces of zernike_nm_der; straight-line bodies of compute_z_zprime_Qbfs/_Qcon (both branches) and the slope terms '
+             'of compute_z_zprime_Q2d; the bodies of sphere/conic_sag(_der), der_direction_cosine_spheroid, phi_spheroid, '
+             'off_axis_conic_sag/_der/_sigma/_sigma_der (both shift branches, for every interpretation of np.sqrt) and the Q2d_and_der '
+             'assembly. MODELLED AND COMPARED: every routine above, the *_der_seq forms (against one-at-a-time evaluation), '
+             'cheby*_der, zernike_nm_der_seq, compute_z_zprime_Q2d and Q2d_and_der end to end.'),
+    'note': ('partial: the Python loops / NumPy plumbing around the translated steps are tied to the model by execution, not by proof; '
+             'cheby*_der (a constant rescaling of jacobi_der) and the *_der_seq sweeps are checked, not separately proved; the surface '
+             'theorems assume positive radicands (inside the domain); rounding is outside every theorem (comparisons at 1e-9 relative).'),
 }
